@@ -57,6 +57,14 @@ def _menu():
         m.append((f'drop link {t}.l', lambda s, t=t: K.drop_pointer(s, t, 'l', link=True)))
         m.append((f'annotate {t}', lambda s, t=t: K.set_annotation(s, t, ANNO, 'v')))
         m.append((f'drop annotation value on {t}', lambda s, t=t: K.drop_annotation_value(s, t, ANNO)))
+    # renames onto a name that may be taken
+    m.append(('rename default::T0 to default::T1', lambda s: K.rename_type(s, 'default::T0', 'default::T1')))
+    m.append(('rename default::T1 to default::T2', lambda s: K.rename_type(s, 'default::T1', 'default::T2')))
+    m.append(('rename property default::T0.p to q', lambda s: K.rename_pointer(s, 'default::T0', 'p', 'q')))
+    # reference-valued internal fields set and reset (what the compiler does for derived union types)
+    m.append(('alter default::T2 set union_of := {T0, T1}',
+              lambda s: K.set_type_ref_field(s, 'default::T2', 'union_of', ['default::T0', 'default::T1'])))
+    m.append(('alter default::T2 reset union_of', lambda s: K.set_type_ref_field(s, 'default::T2', 'union_of', None)))
     m.append(('create annotation note', lambda s: K.create_annotation(s, ANNO)))
     m.append(('rename annotation note to memo', lambda s: K.rename_annotation(s, ANNO, ANNO2)))
     m.append(('drop annotation note', lambda s: K.drop_annotation(s, ANNO)))
@@ -67,7 +75,7 @@ MENU = _menu()
 NMENU = len(MENU)
 # migration menus (C02 / C10): no link commands - the stand-in for std lacks what links
 # need beyond creation (std::exclusive, link properties source/target)
-MIG_MENU = [i for i, (label, _f) in enumerate(MENU) if ' link ' not in label]
+MIG_MENU = [i for i, (label, _f) in enumerate(MENU) if ' link ' not in label and 'union_of' not in label]
 NMIG = len(MIG_MENU)
 
 RECIPES = {
@@ -82,6 +90,7 @@ RECIPES[4] = ['create default::T1', 'create default::T2', 'create default::T0 ex
               'alter default::T0 extending default::T1, default::T2', 'create property default::T1.p -> str']
 RECIPES[5] = ['create default::T0', 'create default::T1 extending default::T0', 'create property default::T0.p -> str',
               'create annotation note', 'annotate default::T0']
+RECIPES[3] = RECIPES[3]
 MIG_RECIPES = (0, 1, 4, 5)
 _LABEL = {label: i for i, (label, _f) in enumerate(MENU)}
 
@@ -257,24 +266,38 @@ def migration_f17(ra, ka, a0, a1, rb, kb, b0, b1) -> bool:
     return bool(LAST_INFO.get('F17'))
 
 
+def f17_witness(args) -> bool:
+    """Witness predicate of known finding F17 for a counterexample of
+    migration_raw / migration_reaches_target (8 arguments) or
+    path_independent (5 arguments): the computed migration both renames an
+    object type and changes the bases of one."""
+    LAST_INFO.clear()
+    if len(args) >= 8:
+        migration_reaches_target(*args[:8], False)
+    else:
+        path_independent(*args[:5])
+    return bool(LAST_INFO.get('F17'))
+
+
 # ---------------------------------------------------------------------------
 # C10: step-by-step migration equals direct migration; migrating to the empty
 # schema removes everything
 
 def path_independent(r1: int, c1: int, r2: int, c2: int, d2: int) -> bool:
     r1, r2 = concrete_index(r1, len(MIG_RECIPES)), concrete_index(r2, len(MIG_RECIPES))
-    c1, c2, d2 = concrete_index(c1, NMIG), concrete_index(c2, NMIG), concrete_index(d2, NMIG)
+    # command index NMIG = "no command"
+    c1, c2, d2 = concrete_index(c1, NMIG + 1), concrete_index(c2, NMIG + 1), concrete_index(d2, NMIG + 1)
     if min(r1, r2, c1, c2, d2) < 0:
         return True
-    c1, c2, d2 = MIG_MENU[c1], MIG_MENU[c2], MIG_MENU[d2]
+    c1, c2, d2 = (MIG_MENU[c] if c < NMIG else None for c in (c1, c2, d2))
     with untraced():
         return _path_independent(MIG_RECIPES[r1], c1, MIG_RECIPES[r2], c2, d2)
 
 
 def _path_independent(r1, c1, r2, c2, d2) -> bool:
     empty = K.base_schema()
-    s1 = build(r1, [c1])
-    s2 = build(r2, [c2, d2])
+    s1 = build(r1, [c for c in (c1,) if c is not None])
+    s2 = build(r2, [c for c in (c2, d2) if c is not None])
     cov.hit('step')
     try:
         d12 = s_ddl.delta_schemas(s1, s2)
@@ -290,7 +313,8 @@ def _path_independent(r1, c1, r2, c2, d2) -> bool:
           and not K.integrity_problems(via) and not K.integrity_problems(gone))
     if not ok:
         LAST_INFO.clear()
-        LAST_INFO.update({'s1': 'recipe %d + %s' % (r1, MENU[c1][0]), 's2': 'recipe %d + %s' % (r2, [MENU[c2][0], MENU[d2][0]]),
+        LAST_INFO.update({'s1': 'recipe %d + %s' % (r1, [MENU[c][0] for c in (c1,) if c is not None]),
+                          's2': 'recipe %d + %s' % (r2, [MENU[c][0] for c in (c2, d2) if c is not None]),
                           'via_vs_direct': _diff(vv, vd), 'left_over': sorted(set(K.user_view(gone)) - set(K.user_view(empty)))[:5],
                           'F17': bool(ren and reb)})
         return bool(ren and reb)         # known finding F17
